@@ -20,8 +20,9 @@ ASSUMPTIONS = [
     "The process working directory is process-global state: the translator lists every call that changes such state "
     "(pkg_process_state_calls: os.Chdir, Setenv, Umask, signal.Notify, log.SetOutput, rand.Seed, flag.Parse, GOMAXPROCS ...; "
     "obligation globals_no_process_state_calls) and the mix cwd-relative observes it at run time. Still shared by construction: "
-    "RunInspections writes <name>.link files into the working directory (the harness uses inspection names unique per goroutine "
-    "and records only sub-trees of the working directory that nobody writes)",
+    "RunInspections writes <name>.link files into the working directory; the results of verifications must not depend on them "
+    "(mix shared-inspection-name uses the same inspection names in all concurrent verifications; the other mixes use names "
+    "unique per goroutine and record only sub-trees of the working directory that nobody writes)",
     "process-global state changed by a dependency (standard library / third-party) or through syscalls not in the translator's "
     "table is not inventoried; only the run-time comparison can show it",
     "writes performed by init() functions and package-level initialisers (pkg_init_writes, none at present) happen before any call "
@@ -111,6 +112,14 @@ def _violations(rc, o, batches):
                 inp['differing_calls_by_kind'][mm['kind']] = inp['differing_calls_by_kind'].get(mm['kind'], 0) + 1
         inp['other_batches'] = [_params(x) for x in diff[1:10]]
         inp['tasks'] = b.get('tasks')
+        if b['mix'] == 'shared-inspection-name':
+            # the scenarios of the batch (which goroutines verify a clean / a dirty run directory) and the round (= call index)
+            inp['round'] = m['op']
+            inp['inspection_names'] = (b.get('tasks') or [{}])[0].get('inspection_names')
+            inp['scenarios'] = [{'goroutine': t['k'], 'run_dir': t['tree'], 'must': 'fail' if t.get('dirty_run_dir') else 'pass'}
+                                for t in (b.get('tasks') or [])]
+            inp['differing_calls'] = [{'goroutine': mm['goroutine'], 'round': mm['op'], 'run_dir': mm['tree'],
+                                       'sequential': mm['sequential'][:60], 'concurrent': mm['concurrent'][:60]} for mm in b['mismatches'][:12]]
         viol.append({'klass': 'result-differs', 'case': {'id': b['id'], 'input': inp},
                      'impl': m['concurrent'], 'expected': m['sequential'],
                      'what': 'a call (%s) made concurrently with independent calls returned something else than the same call made '
@@ -258,6 +267,18 @@ def correspondence(ctx):
     batches += b3
     nrace += o3.count('WARNING: DATA RACE')
     rcs.append(rc3)
+    # the same inspection name in every layout: <name>.link in the working directory is written by all of them
+    sspec = ('12,16', 1, '0', '0', 'shared-inspection-name') if ctx.tier == 'quick' else ('8,12,16', 3, '0,4', '0', 'shared-inspection-name')
+    rc4, o4, b4 = _run(ctx, sspec, 'same', seed_off=7000)
+    for b in b4:
+        b['id'] += 400000
+    v4 = _violations(rc4, o4, b4)
+    for v in v4:
+        v['case']['input']['verif_seed'] = ctx.seed + 7000
+    viol += v4
+    batches += b4
+    nrace += o4.count('WARNING: DATA RACE')
+    rcs.append(rc4)
     corr.evaluations = len(batches)
     corr.distinct_nontrivial = len(set((b['mix'], b['goroutines'], b['gomaxprocs'], b['yield'], b['seed']) for b in batches
                                        if b['goroutines'] >= 2 and b['calls'] >= 2))
@@ -271,6 +292,12 @@ def correspondence(ctx):
                  "fixes its working directory once; up to 4 goroutines run InTotoVerifyWithDirectory on their own run directories with "
                  "layouts of 1-2 inspections taking 0.3-0.5 s while the others call RecordArtifacts / InTotoRun with paths relative to "
                  "the working directory, spread over that time; the working directory is checked after every concurrent phase. "
+                 "Mix shared-inspection-name (G in {12,16}; thorough {8,12,16} x 3 rounds x GOMAXPROCS {default,4}): every goroutine makes 5-8 "
+                 "InTotoVerifyWithDirectory calls, each released by a barrier across all goroutines, on its own layout object, keys, link "
+                 "directory and run directory, with two inspections (sleep 0.01-0.04 s) whose NAMES are the same in all layouts of the batch "
+                 "(RunInspections writes <name>.link into the working directory), strict inspection rules (MATCH the unpacked file WITH "
+                 "PRODUCTS FROM the step, ALLOW README, DISALLOW *); odd goroutines have a disallowed extra file in the run directory "
+                 "(must be rejected), even ones are clean (must be accepted with their own summary link). "
                  "non-trivial = at least 2 goroutines and 2 calls; distinct = distinct (mix, G, GOMAXPROCS, yield, seed)")
     calls, kinds, errs, trees = 0, {}, {}, {}
     for b in batches:
